@@ -44,12 +44,24 @@ unsigned gh_n_notify;                                         /* condition_varia
 #define PR_CONTAINER_RECORD(src) do { if (__CPROVER_same_object(src, &vm)) { ITEM *pr_it = (ITEM *)((cv_i8 *)(src) - __builtin_offsetof(ITEM, _p)); \
       gh_mv_tp = IT_TP(pr_it); gh_mv_own = PR_OWN(src); gh_mv_id = IT_ID(pr_it); } } while (0)
 #endif
-#ifdef C12_CONCRETE_VEC
+#ifdef CV_HAS_sch_item_move_assign
+#define VEC_ITEM_MOVE_ASSIGN(d, s) sch_item_move_assign(d, s)
+#endif
+#if defined(C12_CONCRETE_VEC) && defined(C12_VEC_MOVES)
+#include "model_vec_heap_moves.c"      /* heap algorithms move entries through the REAL SchItem(SchItem&&) / operator=(SchItem&&) / ~SchItem(), as libstdc++ does */
+#elif defined(C12_CONCRETE_VEC)
 #include "model_vec_heap_concrete.c"
 #else
 #include "model_vec_heap.c"
 #endif
 #include "model_promise.c"
+#ifdef C12_VEC_MOVES
+/* promise<void>::operator=(promise&&) as proved in unit pr_move_assign: if (this != &other) { set_value(drop); _owner = other.claim(); } */
+PROM *_ZN5cocls7promiseIvEaSEOS1_(PROM *this_, PROM *other) {
+  if (this_ != other) { void *old = PR_OWN(this_); PR_OWN(this_) = 0; if (old) { gh_pr_n_dropped++; if (old == gh_W) gh_W_dropped++; }
+                        void *m = PR_OWN(other); PR_OWN(other) = 0; PR_OWN(this_) = m; }
+  return this_; }
+#endif
 #ifdef CV_HAS_var_from_promise
 #include "model_variant_expired.c"
 #endif
